@@ -129,7 +129,8 @@ class TypeGen:
         n = d(st.integers(1, 3))
         vals: List[Any] = d(st.lists(st.sampled_from(pool), min_size=n, max_size=n, unique=True))
         if chance(d, 0.15):
-            vals = [v for v in vals if v not in (0, 1)] + [pick(d, [True, False])]
+            bv = pick(d, [True, False])  # (True == 1 and False == 0 in Python: only the equal integer is dropped)
+            vals = [v for v in vals if isinstance(v, str) or v != bv] + [bv]
         if self.cfg["enums"] and self.prog["enums"] and chance(d, 0.15):
             i = d(st.integers(0, len(self.prog["enums"]) - 1))
             e = self.prog["enums"][i]
